@@ -473,10 +473,34 @@ def _subscript_case(kind):
         class H3(HG[int], t.Generic[V]):
             extra: V = None  # type: ignore
         return (H3[str].__pane_info__.fields[0].type, H3[str].__pane_info__.fields[-1].type)
+    if kind in ('swapped', 'grandchild', 'rebound-same-var'):
+        class HP2(PaneBase, t.Generic[T_, U_]):
+            first: T_
+            second: U_
+        if kind == 'rebound-same-var':            # class C(P[int, str], Generic[T]): z: T -- T is a NEW parameter of C
+            class HC2(HP2[int, str], t.Generic[T_]):
+                z: T_ = None  # type: ignore
+            return (HC2.__pane_info__.fields[-1].type, HC2[float].__pane_info__.fields[-1].type, HC2[float].__pane_info__.fields[0].type)
+
+        class HS(HP2[U_, T_]):                    # parameters forwarded in swapped order
+            pass
+        if kind == 'grandchild':
+            class HS2(HS):
+                pass
+            return tuple(f.type for f in HS2.__pane_info__.fields)
+        return tuple(f.type for f in HS.__pane_info__.fields) + tuple(f.type for f in HS[int, str].__pane_info__.fields)
+    if kind == 'nested-generic':                  # a field whose type is a subscripted generic dataclass
+        class HGS(PaneBase, t.Generic[T_]):
+            v: T_
+
+        class HW(PaneBase, t.Generic[T_]):
+            inner: HGS[T_]
+        return HW[int].__pane_info__.fields[0].type.__pane_info__.fields[0].type
     raise ValueError(kind)
 
 
-CUSTOM['pane.classes:_make_subclass.bounded'] = lambda m: [(_subscript_case, ['kind'], (k,), f'subscript[{k}]') for k in ('forwarded', 'explicit-generic', 'partially-bound')]
+SUBSCRIPT_KINDS = ('forwarded', 'explicit-generic', 'partially-bound', 'swapped', 'grandchild', 'rebound-same-var', 'nested-generic')
+CUSTOM['pane.classes:_make_subclass.bounded'] = lambda m: [(_subscript_case, ['kind'], (k,), f'subscript[{k}]') for k in SUBSCRIPT_KINDS]
 
 
 def _rtv_instances(m):
@@ -491,6 +515,9 @@ def _rtv_instances(m):
         (t.Tuple[T1, ...], {T1: int}, t.Tuple[int, ...]), (t.Union[T1, int], {T1: int}, int), (t.List[T1], {}, t.List[T1]),
         (t.Dict[T1, T2], {T1: str, T2: t.List[int]}, t.Dict[str, t.List[int]]), (int, {T1: str}, int),
         (t.Union[t.List[T1], t.Set[T1], T1], {T1: int}, t.Union[t.List[int], t.Set[int], int]),
+        # substitution is SIMULTANEOUS: a replacement that is itself a type variable is not substituted again
+        (T1, {T1: T2, T2: int}, T2), (t.Tuple[T1, T2], {T1: T2, T2: int}, t.Tuple[T2, int]),
+        (t.List[t.Tuple[T1, T2]], {T1: T2, T2: T1}, t.List[t.Tuple[T2, T1]]), (t.Dict[T1, t.List[T2]], {T1: T2, T2: T1}, t.Dict[T2, t.List[T1]]),
     ]
     return [(m.replace_typevars, ['ty', 'replacements', 'expect'], (a, b, c), f'replace_typevars({a}, ...)') for a, b, c in cases]
 
